@@ -146,6 +146,21 @@ def run(ctx):
 
     # 6. implementation -> spec: recorded executions validated by TLC
     rec = os.path.join(ctx.work, "rec.ndjson")
+    # the real ENCODER: frames built by the real constructors with payload lengths and stream ids at every
+    # boundary between varint widths, encoded by Frame::to_bytes, fed in chunks of 1 / 13 / 1000 / 16384 / all
+    # bytes: the decoder must deliver exactly those frames in order
+    renc = os.path.join(ctx.work, "realenc.ndjson")
+    ctx.engine(ENGINE, ["--mode", "realenc", "--n", 400 if thorough else 60, "--out", renc])
+    rrecs = ctx.read_ndjson(renc)
+    rsum = [r for r in rrecs if r.get("summary")][0]
+    for r in rrecs:
+        if not r.get("summary"):
+            sizes = sorted({f[2] for f in r["frames"] if f[0] == "git"})
+            ctx.violation(f"realenc chunk={r['chunk']} git-payloads={sizes[:6]}",
+                          f"the encoding of {json.dumps(r['frames'])[:300]} fed in chunks of {r['chunk']} does not decode to those frames: {r['breach']}",
+                          {"engine": ENGINE, "mode": "realenc", "frames": r["frames"], "chunk": r["chunk"], "breach": r["breach"]})
+    ctx.cov["real_encoder_roundtrip"] = {"streams": rsum["streams"], "frames": rsum["frames"]}
+    ctx.cov["evaluations"] += rsum["streams"]
     ctx.engine(ENGINE, ["--mode", "record", "--n", 8000 if thorough else 1200, "--out", rec])
     events = ctx.read_ndjson(rec)
     runs = sum(1 for e in events if e["ev"] == "reset")
